@@ -207,6 +207,42 @@ def promote : Nat → Nat → Op Unit
         | (h1, .error e) => (h1, .error e)
       | _, _ => (setPtr c cn.parent none h, .ok ())
 
+/-! ### receiving a real child materialises an element reached by traversal (repair of D34)
+
+`ElementList.append` promotes its own element first when that element is still a pending traversal child and the child is
+really going to be listed.  `append` above is the list / pointer core (all the C09–C12 theorems are about it); the operations
+below are what the library's entry points do now. -/
+
+def pending (h : Heap) (p : Nat) : Bool :=
+  match h[p]? with
+  | some pn => pn.parent.isNone && pn.tparent.isSome
+  | none => false
+
+/-- the core append put `c` into `p`'s list, where it was not before -/
+def listsNew (h h2 : Heap) (p c : Nat) : Bool :=
+  (match h2[p]? with | some n => n.list.contains c | none => false) && !(match h[p]? with | some n => n.list.contains c | none => false)
+
+/-- `ElementList.append(child)` as a whole: admission first (a refused child promotes nothing), then the promotion of the element
+    itself when the child is about to be listed, then the core append on the promoted heap -/
+def appendP (fuel p c : Nat) : Op Unit := fun h =>
+  match append R p c h with
+  | (h2, .error e) => (h2, .error e)
+  | (h2, .ok _) =>
+    if listsNew h h2 p c && pending h p then
+      match promote R fuel p h with
+      | (h1, .ok _) => append R p c h1
+      | (h1, .error e) => (h1, .error e)
+    else (h2, .ok ())
+
+/-- `child.parent = p` with the promotion of `p` (`p.add(child)` is `ElementList.append`) -/
+def setParentP (fuel p c : Nat) : Op Unit := fun h =>
+  match h[c]? with
+  | none => (h, .error .crash)
+  | some cn =>
+    match appendP R fuel p c (setPtr c (some p) none h) with
+    | (h2, .ok _) => (detach cn.parent p c h2, .ok ())
+    | (h2, .error e) => (setPtr c cn.parent cn.tparent h2, .error e)
+
 /-! ### addressing a repetition by name and index (`ElementList.child_at_index`, `set`, `remove_by_name`) -/
 
 def nameOf (h : Heap) (c : Nat) : Option String := match h[c]? with | some n => some n.name | none => none
